@@ -20,6 +20,22 @@ sys.path.insert(0, HERE)
 from mutants import MUTANTS, BENIGN  # noqa: E402
 
 
+def seeded_variants():
+    """The changes written by independent sub-agents (seeded/<id>/patch.diff): each must be reported by the checks
+    recorded in its meta.json."""
+    import json
+    out = []
+    base = os.path.join(VERIF, "seeded")
+    for d in sorted(os.listdir(base)) if os.path.isdir(base) else []:
+        meta = os.path.join(base, d, "meta.json")
+        if os.path.exists(meta):
+            m = json.load(open(meta))
+            rules = {p: r.split()[0].split("/")[0] for p, r in m["detected_by"].items()}
+            for prop, rule in rules.items():
+                out.append((f"seeded-{d}-{prop}", [prop], rule, None, os.path.join(base, d, "patch.diff"), None))
+    return out
+
+
 def run_variant(m):
     name, props, rule, fname, old, new = m[:6]
     tmp = tempfile.mkdtemp(prefix="yarl-selftest-")
@@ -27,11 +43,18 @@ def run_variant(m):
         os.makedirs(os.path.join(tmp, "repo"))
         shutil.copytree(os.path.join(REPO, "yarl"), os.path.join(tmp, "repo", "yarl"),
                         ignore=shutil.ignore_patterns("__pycache__", "*.so", "*.c"))
-        p = os.path.join(tmp, "repo", "yarl", fname)
-        src = open(p, encoding="utf8").read()
-        if src.count(old) != 1:
-            return name, False, f"anchor text occurs {src.count(old)} times in {fname} (selftest entry is stale)"
-        open(p, "w", encoding="utf8").write(src.replace(old, new))
+        if fname is None:
+            pr = subprocess.run(["patch", "-p1", "-s", "-i", old], cwd=os.path.join(tmp, "repo"), capture_output=True, text=True)
+            if pr.returncode != 0:
+                return name, False, "patch does not apply (selftest entry is stale)"
+            fname = "__none__"
+            p = None
+        else:
+            p = os.path.join(tmp, "repo", "yarl", fname)
+            src = open(p, encoding="utf8").read()
+            if src.count(old) != 1:
+                return name, False, f"anchor text occurs {src.count(old)} times in {fname} (selftest entry is stale)"
+            open(p, "w", encoding="utf8").write(src.replace(old, new))
         if fname.endswith(".py"):
             try:
                 py_compile.compile(p, doraise=True, cfile=os.path.join(tmp, "x.pyc"))
@@ -66,7 +89,7 @@ def main():
     ap.add_argument("-k", default="")
     ap.add_argument("--list", action="store_true")
     a = ap.parse_args()
-    todo = [m for m in MUTANTS + BENIGN if a.k in m[0] or a.k in ",".join(m[1])]
+    todo = [m for m in MUTANTS + BENIGN + seeded_variants() if a.k in m[0] or a.k in ",".join(m[1])]
     if a.list:
         for m in todo:
             print(m[0], m[1], m[2])
